@@ -1,14 +1,20 @@
+import Wayfind.Proofs.Reachable
 import Wayfind.Proofs.Corollaries
 
 /-! # C05 — routing depends only on the set of live templates
-Search half: two reachable trees holding the same routes (up to how literal text is split across nodes) answer every
-search identically, for every constraint environment — whatever order, flags, dirty marks or radix splits their
-histories left.
-Status: **partial** — tree layer, and the printing half (`Display` equal) needs uniqueness of the canonical tree. -/
+Search half: two routers reachable through the API whose trees hold the same routes (up to how literal text is split
+across nodes) answer every search identically, for every constraint environment — whatever order, flags, dirty marks
+or radix splits their histories left.
+Status: **partial** — the printing half (`Display` equal) needs uniqueness of the canonical tree; "same live templates
+⇒ same routes" is the registry invariant. Both are tied by the FUN oracle of the check. -/
 
-theorem C05_search_history_independent (env : Env) (ops1 ops2 : List ROp)
-    (hw1 : ∀ op ∈ ops1, op.wf) (hw2 : ∀ op ∈ ops2, op.wf)
-    (hsame : ∀ P i, Mem (Node.routes (ops1.foldl applyROp Node.empty)) P i ↔ Mem (Node.routes (ops2.foldl applyROp Node.empty)) P i)
-    (path : Bytes) :
-    Node.search env (ops1.foldl applyROp Node.empty) path [] = Node.search env (ops2.foldl applyROp Node.empty) path [] :=
-  search_same_routes env _ _ (good3_reachable ops1 hw1 _ good3_empty) (good3_reachable ops2 hw2 _ good3_empty) hsame path
+theorem C05_search_history_independent (env : Env) (r1 r2 : Router) (h1 : Reachable r1) (h2 : Reachable r2)
+    (hsame : ∀ P i, Mem (Node.routes r1.root) P i ↔ Mem (Node.routes r2.root) P i) (path : Bytes) :
+    (Node.search env r1.root path []) = (Node.search env r2.root path []) :=
+  search_same_routes env _ _ (reachable_good3 r1 h1) (reachable_good3 r2 h2) hsame path
+
+theorem C05_search_history_independent_api (env : Env) (r1 r2 : Router) (h1 : Reachable r1) (h2 : Reachable r2)
+    (hsame : ∀ P i, Mem (Node.routes r1.root) P i ↔ Mem (Node.routes r2.root) P i) (path : Bytes) :
+    r1.search env path = r2.search env path := by
+  unfold Router.search
+  rw [C05_search_history_independent env r1 r2 h1 h2 hsame path]
